@@ -211,6 +211,18 @@ impl Sim {
         self.executed.push(op.name());
         let mut r = self.step_inner(op);
         let after_panic = self.balance_off;
+        if after_panic && r.is_ok() {
+            // A later call on a handle that outlived an injected panic may have panicked itself (the
+            // harness goes on using the handle and passes on the first panic only). An ordinary safe
+            // panic is allowed there; one from a debug-only check stands for undefined behaviour.
+            if let Some(p) = simcore::take_panic() {
+                if is_debug_only_check(&p) {
+                    r = Err(viol("C17", "unexpected-panic", format!("after an injected panic, a later call on the same handle: {p}")));
+                } else {
+                    self.probes.hit("safe_panic_after_fault");
+                }
+            }
+        }
         if let Err(v) = &r {
             // A world that took an injected panic may answer later calls with an ordinary (safe)
             // panic: the property only forbids double drops and touching freed memory. Panics
